@@ -39,19 +39,15 @@ def bytelen(v):
 
 
 def inv(a, m):
+    """Modular inverse (CPython's built-in; independent of the library's
+    numbertheory module)."""
     a %= m
     if a == 0:
         raise ZeroDivisionError("no inverse")
-    # extended euclid, independent of pow(a, -1, m)
-    r0, r1 = m, a
-    t0, t1 = 0, 1
-    while r1:
-        q = r0 // r1
-        r0, r1 = r1, r0 - q * r1
-        t0, t1 = t1, t0 - q * t1
-    if r0 != 1:
+    try:
+        return pow(a, -1, m)
+    except ValueError:
         raise ZeroDivisionError("not invertible")
-    return t0 % m
 
 
 def on_curve(c, P):
